@@ -421,6 +421,23 @@ class PX:
 
     def s_For(self, st, fr):
         it = self.ev(st.iter, fr)
+        if isinstance(it, list):
+            return self._for_live_list(st, fr, it)
+        if isinstance(it, (dict, set)):
+            n0 = len(it)
+            vals = self.iter_values(it, st.target, fr, st)
+            for x in vals:
+                if len(it) != n0:
+                    raise Exc("RuntimeError", ("changed size during iteration",), origin=_text(st.iter))
+                self.assign(st.target, x, fr)
+                try:
+                    self.exec_block(st.body, fr)
+                except _Break:
+                    return
+                except _Continue:
+                    continue
+            self.exec_block(st.orelse, fr)
+            return
         vals = self.iter_values(it, st.target, fr, st)
         for x in vals:
             self.assign(st.target, x, fr)
@@ -430,6 +447,23 @@ class PX:
                 return
             except _Continue:
                 continue
+        self.exec_block(st.orelse, fr)
+
+    def _for_live_list(self, st, fr, lst):
+        """Python iterates a list by index over the live object: removing during iteration skips elements."""
+        i = 0
+        while i < len(lst):
+            x = lst[i]
+            i += 1
+            self.assign(st.target, x, fr)
+            try:
+                self.exec_block(st.body, fr)
+            except _Break:
+                return
+            except _Continue:
+                continue
+            if i > 10000:
+                raise Truncated()
         self.exec_block(st.orelse, fr)
 
     def s_AsyncFor(self, st, fr):
